@@ -305,6 +305,59 @@ pub fn run(rep: &mut Rep) {
             check_prog(r, &ctx, &mut rng, &p);
         }
     });
+    // large graphs: node indices above 2^14 / 2^16 (multi-byte varints, u16 truncations) -- generated ones and the
+    // bundled RLN graph re-serialised
+    {
+        let ctx = Ctx::new();
+        let mut rng = rng_for(seed, "c20-large");
+        for (k, n) in (if thorough { vec![20_000usize, 70_000, 140_000] } else { vec![20_000usize, 70_000] }).into_iter().enumerate() {
+            let mut p = gen_prog(&mut rng, 40, k);
+            // extend with a long chain of cheap operations whose operands are far apart
+            while p.nodes.len() < n {
+                let len = p.nodes.len();
+                let a = if rng.gen_bool(0.5) { len - 1 } else { rng.gen_range(0..len) };
+                let b = rng.gen_range(0..len);
+                p.nodes.push(RNode::Op([Op::Add, Op::Mul, Op::Sub, Op::Bxor][rng.gen_range(0..4)], a, b));
+            }
+            p.outputs = (0..24).map(|_| rng.gen_range(0..p.nodes.len())).chain([p.nodes.len() - 1, 16_383.min(p.nodes.len() - 1), 16_384.min(p.nodes.len() - 1), 65_535.min(p.nodes.len() - 1), 65_536.min(p.nodes.len() - 1)]).collect();
+            check_prog(rep, &ctx, &mut rng, &p);
+            rep.stratum(format!("large-graph|{}k-nodes", n / 1000));
+        }
+        // bundled graph: decode -> encode -> decode must give an equal graph, and the re-encoded bytes must
+        // evaluate to the same witness
+        let orig = rln::circuit::graph_from_folder();
+        rep.ev();
+        match catch(|| deserialize_witnesscalc_graph(std::io::Cursor::new(orig))) {
+            Ok(Ok((nodes, signals, inputs))) => {
+                let mut bytes = vec![];
+                match catch(|| serialize_witnesscalc_graph(&mut bytes, &nodes, &signals, &inputs)) {
+                    Ok(Ok(())) => match catch(|| deserialize_witnesscalc_graph(std::io::Cursor::new(&bytes))) {
+                        Ok(Ok((n2, s2, i2))) => {
+                            if n2 != nodes || s2 != signals || i2 != inputs {
+                                rep.violation("bundled-graph:storage-roundtrip:differs", json!({"nodes": nodes.len()}));
+                            } else {
+                                rep.count("bundled_graph_roundtrip_equal");
+                                rep.stratum(format!("bundled-graph|{}-nodes|{}-signals", nodes.len(), signals.len()));
+                                // evaluation through the re-encoded bytes equals evaluation through the original file
+                                let mut named: Vec<(String, Vec<Fr>)> = inputs.iter().map(|(k, (_, l))| (k.clone(), (0..*l).map(|j| if k == "identityPathIndex" { Fr::from((j % 2) as u64) } else if k == "userMessageLimit" { Fr::from(100u64) } else if k == "messageId" { Fr::from(3u64) } else { rand_fr(&mut rng) }).collect())).collect();
+                                named.sort_by(|a, b| a.0.cmp(&b.0));
+                                let w1 = catch(|| calc_witness(named.clone(), orig));
+                                let w2 = catch(|| calc_witness(named.clone(), &bytes));
+                                match (w1, w2) {
+                                    (Ok(a), Ok(b)) if a == b => rep.count("bundled_graph_reencoded_evaluates_equal"),
+                                    (Ok(_), Ok(_)) => rep.violation("bundled-graph:reencoded-evaluates-differently", json!({})),
+                                    _ => rep.violation("bundled-graph:evaluation-panicked", json!({})),
+                                }
+                            }
+                        }
+                        _ => rep.violation("bundled-graph:reencoded-bytes-do-not-decode", json!({"bytes": bytes.len()})),
+                    },
+                    _ => rep.violation("bundled-graph:serialize-failed", json!({})),
+                }
+            }
+            _ => rep.inconclusive("bundled graph does not decode".to_string()),
+        }
+    }
     // hand-written corner cases
     {
         let ctx = Ctx::new();
